@@ -31,7 +31,12 @@ def unchars(a):
     return "".join(chr(x) for x in a)
 
 
+MOJIBAKE = ["Jos\u00c3\u00a9", "\u00c2\u00b0C", "\u00c3\u00bc", "na\u00c3\u00afve \u00c2\u00a7"]     # Latin-1 characters that, taken as bytes, are valid UTF-8
+
+
 def gen_name(rng, allow_colon=True, maxlen=8):
+    if rng.random() < 0.06:
+        return rng.choice(MOJIBAKE)
     while True:
         n = rng.randint(1, maxlen)
         s = "".join(rng.choice(SPECIAL) if rng.random() < 0.45 else rng.choice(PLAIN) for _ in range(n))
@@ -178,7 +183,7 @@ def move_authority_level(ctx):
     rng = ctx.rng("authority")
     ev = ("BEGIN:VCALENDAR\r\nVERSION:2.0\r\nPRODID:x\r\nBEGIN:VEVENT\r\nUID:%s\r\nDTSTAMP:20240101T000000Z\r\nDTSTART:20240102T100000Z\r\n"
           "SUMMARY:s\r\nEND:VEVENT\r\nEND:VCALENDAR\r\n")
-    hosts = ["cal.example.org", "127.0.0.1", "localhost", "a-b.c"]
+    hosts = ["cal.example.org", "127.0.0.1", "localhost", "a-b.c", "Cal.Example.ORG", "LOCALHOST", "[::1]", "[2001:db8::1]"]
     with App({"auth": {"type": "none"}}) as app:
         app.request("MKCALENDAR", "/u/c/", login="u:pw")
         for i in range(ctx.n(120, 2500)):
@@ -205,7 +210,7 @@ def move_authority_level(ctx):
                 env["wsgi.url_scheme"] = "http"
                 env["SERVER_PORT"] = "5232"
                 addressed_port = env.get("HTTP_X_FORWARDED_PORT") or default
-                if ":" in env["HTTP_X_FORWARDED_HOST"]:
+                if env["HTTP_X_FORWARDED_HOST"].endswith(":8443"):
                     addressed_port = "8443"
             else:
                 port = rng.choice([default, default, "5232"])
@@ -238,7 +243,7 @@ def move_authority_level(ctx):
                 ctx.violation("a MOVE to a Destination on the authority the client addressed (%s://%s) was answered %d" % (scheme, authority, st), case)
             if same is False and got != "remote":
                 ctx.violation("a MOVE to a Destination on another server (%s) was answered %d instead of 502" % (authority, st), case)
-            if ctx.driver:
+            if ctx.driver and "[" not in h:          # (IPv6 literals: oracle only, the model has no bracketed authorities)
                 a = ctx.driver.ask1({"m": "quote", "op": "moveauth", "fixed": True, "xf_host": chars(env.get("HTTP_X_FORWARDED_HOST", "")),
                                      "xf_proto": chars(env.get("HTTP_X_FORWARDED_PROTO", "")),
                                      "xf_port": chars(env["HTTP_X_FORWARDED_PORT"]) if "HTTP_X_FORWARDED_PORT" in env else None,
